@@ -46,6 +46,22 @@ def main():
         traceback.print_exc()
         print('infrastructure trouble: %r' % (e,))
         return 2
+    except Exception as e:
+        # an exception that escaped a search: if it was raised inside the code under test, the real
+        # code failed on an input the check generated (the property is no longer shown to hold);
+        # otherwise the machinery itself is broken
+        tb = traceback.extract_tb(e.__traceback__)
+        repo = os.path.realpath(common.REPO)
+        in_repo = [f for f in tb if os.path.realpath(f.filename).startswith(repo + os.sep)]
+        traceback.print_exc()
+        if not in_repo:
+            print('the check itself failed: %r' % (e,))
+            return 2
+        where = '%s:%d in %s' % (os.path.relpath(in_repo[-1].filename, repo), in_repo[-1].lineno, in_repo[-1].name)
+        chk.violation('real-code-raised:' + type(e).__name__ + ':' + in_repo[-1].name,
+                      'the code under test raised %r at %s while the check was exercising it' % (e, where),
+                      {'traceback': traceback.format_exception(type(e), e, e.__traceback__)[-12:],
+                       'how_to_replay': './check %s --tier %s with VERIF_SEED=%d' % (a.prop, a.tier, chk.seed)}, True)
     return chk.finish()
 
 
